@@ -26,7 +26,7 @@ ID = 'C18'
 LEVEL = 'exploration'
 RULE = (
     'cases = (a) one beam_intersection call with 40-60 rays on a cylinder whose axis class '
-    '(+-x, +-y, +-z, within 1e-12 of +-z, z<0, near the equator, uniform on the sphere), base '
+    '(+-x, +-y, +-z, within 1e-12 of +-z, z<0, in / near the xy-plane, uniform on the sphere), base '
     '(0, +-1e3, log-uniform), radius and height (1e-3..1e3, mm/cm/m) are drawn per case; ray '
     'origins inside / outside near and far / on lateral surface, cap, edge / base point / centre, '
     'directions random, exactly (anti)parallel, parallel within 1e-9, tangent, through an edge, in '
@@ -188,6 +188,13 @@ def judge_beam(st: State, ev):
             sel = np.unravel_index(flat, shape) if shape else None
             got, P, N = got[sel], P[sel], N[sel]
             ctx.count('rays_subsampled_calls')
+        fin_in = np.all(np.isfinite(P), axis=-1) & np.all(np.isfinite(N), axis=-1)
+        if not np.all(fin_in):
+            # e.g. NaN quadrature nodes handed on by compute_transmission_map: judged there
+            ctx.count('out_of_domain:ray_with_nonfinite_input', int(np.count_nonzero(~fin_in)))
+            got, P, N, sel = got[fin_in], P[fin_in], N[fin_in], True
+            if got.size == 0:
+                return
         o = cyl.path(g.fr, g.base, g.r, g.h, P, N, K_EPS)
         bad_self = cyl.sampled_selfcheck(g.axis, g.base, g.r, g.h, P, N, o, st.rng,
                                          m=4 if in_situ else 12)
@@ -265,17 +272,6 @@ def judge_beam(st: State, ev):
 
 
 # -------------------------------------------------------------- helper monitors ---
-def _bc(*vs):
-    """Broadcast scipp scalars/arrays to numpy arrays of a common shape."""
-    dims, shape = [], []
-    for v in vs:
-        for d, s in zip(v.dims, v.shape, strict=True):
-            if d not in dims:
-                dims.append(d)
-                shape.append(s)
-    return dims, tuple(shape)
-
-
 def judge_positive_interval(st: State, ev):
     """max(0, max(0, min(a1, b1)) - max(0, max(a0, b0))): exact model on the observed floats."""
     ctx = st.ctx
@@ -333,7 +329,8 @@ def judge_slab(st: State, ev):
         ri = np.asarray(right.values, dtype=np.float64).reshape(shape).astype(LD)
         fl = _scal_values(flag, dims, shape).astype(bool) if flag.dims else np.full(shape, bool(flag.value))
         bmag = np.sqrt(np.sum(B * B, axis=-1))
-        well = np.abs(nda) > 1e-3
+        fin_in = np.all(np.isfinite(B), axis=-1) & np.all(np.isfinite(Nn), axis=-1)
+        well = (np.abs(nda) > 1e-3) & fin_in
         with np.errstate(all='ignore'):
             wid = ri - le
             exp = hh / np.abs(nda)
@@ -392,7 +389,7 @@ def judge_infinite_cylinder(st: State, ev):
             disc = B * B - A * C
             b2 = np.sum(Bv.astype(LD) ** 2, axis=-1)   # the code works with the full 3-d b
             band = LD(K_EPS * EPS) * (B * B + A * (b2 + rr * rr)) * (1 + 1 / np.sqrt(A))
-            well = A > 1e-6
+            well = (A > 1e-6) & np.all(np.isfinite(Bv), axis=-1) & np.all(np.isfinite(Nv), axis=-1)
             hit = well & (disc > band)
             miss = well & (disc < -band)
             bad_f = (hit & ~fl) | (miss & fl)
@@ -494,6 +491,14 @@ def judge_quadrature(st: State, c, kind, result, exc, origin, canonical=False):
         w = np.asarray(w_v.values, dtype=np.float64).reshape(-1)
         if pts.shape[0] != w.shape[0] or w.size == 0:
             ctx.violation('quad_shape', f'{pts.shape[0]} points, {w.size} weights', case, **keys)
+            return None
+        n_bad = int(np.count_nonzero(~np.all(np.isfinite(pts), axis=1)) + np.count_nonzero(~np.isfinite(w)))
+        if n_bad:
+            ctx.event('quadrature.nodes')
+            case['z_cross_axis_norm_float64'] = repr(float(np.sqrt(g.axis[0] ** 2 + g.axis[1] ** 2)))
+            ctx.violation('quad_nonfinite',
+                          f'quadrature({kind}): {n_bad} of {w.size} nodes/weights are not finite', case,
+                          **keys)
             return None
         tab = node_table(g, pts, w)
         z, rho, wl = tab[:, 0], tab[:, 1], tab[:, 2]
@@ -693,6 +698,13 @@ def judge_single_scatter(st: State, ev):
             flat = st.rng.choice(got.size, size=20000, replace=False)
             sel = np.unravel_index(flat, shape)
             got, P, N1, N2 = got[sel], P[sel], N1[sel], N2[sel]
+        fin_in = (np.all(np.isfinite(P), axis=-1) & np.all(np.isfinite(N1), axis=-1)
+                  & np.all(np.isfinite(N2), axis=-1))
+        if not np.all(fin_in):
+            got, P, N1, N2 = got[fin_in], P[fin_in], N1[fin_in], N2[fin_in]
+            if got.size == 0:
+                ctx.count('out_of_domain:scatter_points_nonfinite')
+                return
         o1 = cyl.path(g.fr, g.base, g.r, g.h, P, N1, K_EPS)
         o2 = cyl.path(g.fr, g.base, g.r, g.h, P, N2, K_EPS)
         lo = o1['L_in'] + o2['L_in'] - 2 * o1['delta']
@@ -782,6 +794,13 @@ def judge_map(st: State, ev):
         w_unit = g.r_unit * g.r_unit * g.h_unit
         wv = quad[1] if quad[1].unit == w_unit else quad[1].to(unit=w_unit)
         w = np.asarray(wv.values, dtype=np.float64).reshape(-1)
+        if not (np.all(np.isfinite(pts)) and np.all(np.isfinite(w))):
+            ctx.event('transmission.value')
+            case['nan_in_map'] = int(np.count_nonzero(~np.isfinite(T)))
+            ctx.violation('transmission_nonfinite',
+                          'compute_transmission_map integrated over non-finite quadrature nodes: '
+                          f'{case["nan_in_map"]} of {T.size} map elements are not finite', case, **keys)
+            return
         V = cyl.volume(g.r_raw, g.h_raw)
         mu = mu_oracle(mat, lam, g.unit)
         beam = np.asarray(a['beam_direction'].value, dtype=np.float64)
@@ -872,7 +891,7 @@ def _beam_tilt_class(g, beam):
 
 # -------------------------------------------------------------------- workload ---
 AXIS_CLASSES = ('+x', '-x', '+y', '-y', '+z', '-z', 'near+z', 'near-z', 'z<0', 'z>0',
-                'equator+', 'equator-', 'sphere', 'sphere', 'z<0', 'sphere')
+                'equator+', 'equator-', 'xy-plane', 'sphere', 'z<0', 'xy-plane-up')
 FORCED_AXIS = {'+x': 'axis +x', '-x': 'axis -x', '+y': 'axis +y', '-y': 'axis -y', '+z': 'axis +z',
                '-z': 'axis -z', 'near+z': 'axis within 1e-12 of +z',
                'near-z': 'axis within 1e-12 of -z'}
@@ -894,6 +913,17 @@ def gen_axis(rng, cls, ctx):
         t = 10.0 ** rng.uniform(-16, -12)
         ph = rng.uniform(0, 2 * np.pi)
         a = _unit(np.array([t * np.cos(ph), t * np.sin(ph), 1.0 if cls == 'near+z' else -1.0]))
+    elif cls in ('xy-plane', 'xy-plane-up'):
+        # a normalised in-plane vector; 'up': one whose float64 sqrt(ax^2 + ay^2) rounds above 1
+        # (0.7 % of normalised vectors) - still a unit axis to rounding
+        for _ in range(5000):
+            v = rng.normal(size=2)
+            a = np.array([*(v / np.linalg.norm(v)), 0.0])
+            if cls == 'xy-plane' or np.sqrt(a[0] * a[0] + a[1] * a[1]) > 1.0:
+                break
+        if np.sqrt(a[0] * a[0] + a[1] * a[1]) > 1.0:
+            ctx.hit('axis in the xy-plane, float64 norm rounds above 1')
+        ctx.hit('axis in the xy-plane at a generic angle')
     elif cls in ('equator+', 'equator-'):
         t = 10.0 ** rng.uniform(-9, -4) * (1 if cls == 'equator+' else -1)
         ph = rng.uniform(0, 2 * np.pi)
@@ -1333,7 +1363,8 @@ def requirements(tier):
         'integrate.normalisation': 100,
     }
     forced = list(FORCED_AXIS.values()) + [
-        'axis z<0', 'base at +-1e3', 'origin inside', 'origin outside', 'origin on surface',
+        'axis z<0', 'axis in the xy-plane at a generic angle',
+        'axis in the xy-plane, float64 norm rounds above 1', 'base at +-1e3', 'origin inside', 'origin outside', 'origin on surface',
         'dir exactly parallel', 'dir parallel within 1e-9', 'dir parallel to rounding', 'dir tangent',
         'dir through edge', 'wavelength 0.1 and 20 angstrom', 'detector in forward/backward direction']
     if tier == 'thorough':
@@ -1483,11 +1514,14 @@ def _rotation_negative_z(v):
 
 
 def _rotation_near_equator(v):
-    """asin is ill-conditioned at 1: axis within 1e-3 of the xy-plane (z >= 0), nodes displaced
-    by at most ~sqrt(eps) (r + h)."""
+    """asin at |z x a| ~ 1 (axis within 1e-3 of the xy-plane): NaN nodes when the norm rounds
+    above 1 (either sign of z), else (z >= 0) nodes displaced by at most ~sqrt(eps) (r + h)."""
     k = v.get('keys') or {}
+    if not (k.get('axis_near_equator') is True and k.get('rotation_applied') is True):
+        return False
+    if v.get('kind') in {'quad_nonfinite', 'transmission_nonfinite'}:
+        return True
     return (v.get('kind') in {'quad_node_outside', 'quad_rigid_image'}
-            and k.get('axis_near_equator') is True and k.get('rotation_applied') is True
             and k.get('axis_z_negative') is False and k.get('small_displacement') is True)
 
 
